@@ -4,7 +4,7 @@ from dataclasses import dataclass, field
 from functools import reduce, cached_property
 from typing import Generator
 from itertools import product
-from numbers import Number
+from numbers import Number, Real
 import re
 
 from sympy import Expr, Symbol, sympify, sinc, cos
@@ -579,12 +579,12 @@ class MultiVector:
                 sqrt = lambda x: (-x) ** 0.5
                 cosh = cos
                 sinhc = sinc
-            elif isinstance(ll, (float, int)) and ll > 0:
+            elif isinstance(ll, Real) and ll > 0:  # Real includes the numpy scalar types.
                 sqrt = lambda x: x ** 0.5
                 import numpy as np
                 cosh = np.cosh
                 sinhc = lambda x: np.sinh(x) / x
-            elif isinstance(ll, (float, int)) and ll == 0:
+            elif isinstance(ll, Real) and ll == 0:
                 sqrt = lambda x: x ** 0.5
                 import numpy as np
                 cosh = sinhc = lambda x: 1
